@@ -21,6 +21,12 @@ def build_phase(ctx, spec, derive_style=0):
   fn = bodies.make_body(ctx, spec)
   o = spec['opts']
   kw = {}
+  if getattr(ctx, 'share_function', False) and not spec.get('monitor'):
+    # every such phase is built on the same function object; the phase name comes from an option
+    if ctx.shared_fn is None:
+      ctx.shared_fn = bodies.make_shared_body(ctx)
+    fn = ctx.shared_fn
+    kw['name'] = spec['name']
   if o['timeout_s'] is not None:
     kw['timeout_s'] = o['timeout_s']
   if o['run_if'] is not None:
@@ -39,6 +45,8 @@ def build_phase(ctx, spec, derive_style=0):
   meas = []
   for m in spec['meas']:
     mm = htf.Measurement(m['name'])
+    if m.get('dim'):
+      mm = mm.with_dimensions('ms')
     v = _validator(m['validator'])
     if v is not None:
       mm = mm.with_validator(v)
@@ -114,6 +122,7 @@ def build_nodes(ctx, nodes, style):
 
 def build_test(ctx, spec, sink, style=0):
   """Returns (test, test_start argument)."""
+  ctx.share_function = bool(spec.get('share_function'))
   nodes = build_nodes(ctx, spec['nodes'], style)
   test = htf.Test(*nodes, test_name='wexec' + spec.get('tag', ''))
   s = spec['settings']
@@ -129,7 +138,7 @@ def build_test(ctx, spec, sink, style=0):
   cbs = [bodies.make_callback(ctx, i, kind, sink) for i, kind in enumerate(spec['callbacks'])]
   test.add_output_callbacks(*cbs)
   for i, c in enumerate(spec['plug_cfg']):
-    ctx.plug_cfg[bodies.PLUGS[ctx.tag][i].__name__] = c
+    ctx.plug_cfg[bodies.PLUGS[ctx.tag][i].LABEL] = c
   ctx.dut_percent = bool(spec.get('dut_percent'))
   ts = spec['test_start']
   if ts is None:
